@@ -93,13 +93,13 @@ use std::pin::Pin;
 use std::sync::{Arc, Mutex};
 use std::task::{Context, Poll};
 
-type Req = AReq<'static, MockR, MockW>;
+pub type Req<'a> = AReq<'a, MockR, MockW>;
 type CloseFut = Pin<Box<dyn Future<Output = std::io::Result<(request::Parser<'static>, MockR, MockW)>>>>;
 type WFut = Pin<Box<dyn Future<Output = std::io::Result<()>>>>;
 
 #[derive(Default)]
 pub struct AState {
-    pub req: Option<Box<Req>>,
+    pub req: Option<Box<Req<'static>>>,
     pub writers: Vec<Option<StreamWriter<MockW>>>,
     pub shared: Option<Arc<Mutex<Shared>>>,
     pub wfut: Option<WFut>,
@@ -126,6 +126,12 @@ pub fn perr(e: &parser::Error) -> String {
     }
 }
 pub fn env_str(r: &parser::Request) -> String {
+    let mut items: Vec<String> = r.env_iter().map(|(k, v)| format!("{}:{}", hexd(k.as_ref().as_bytes()), hexd(v))).collect();
+    if items.is_empty() { return "-".into(); }
+    items.sort();
+    items.join(",")
+}
+pub fn env_str_async(r: &Req) -> String {
     let mut items: Vec<String> = r.env_iter().map(|(k, v)| format!("{}:{}", hexd(k.as_ref().as_bytes()), hexd(v))).collect();
     if items.is_empty() { return "-".into(); }
     items.sort();
@@ -515,7 +521,7 @@ impl Impl {
                 let Some(req) = self.a.req.as_mut() else { return Some("busy".into()) };
                 if self.a.wfut.is_none() {
                     // the future borrows the boxed request; it is dropped before the request is touched again
-                    let ptr: *mut Req = &mut **req;
+                    let ptr: *mut Req<'static> = &mut **req;
                     let fut: WFut = Box::pin(unsafe { &mut *ptr }.writeable());
                     self.a.wfut = Some(fut);
                 }
@@ -591,6 +597,7 @@ impl Impl {
                     }
                 }
             }
+            ["t.run", rest @ ..] => crate::runloop::run_case(rest)?,
             _ => return None,
         })
     }
